@@ -51,6 +51,12 @@ package middleware
 //@     && ret2(findBasicCredentialsFromHeader) == nil
 //@ ensures[user-is-validated-user] ret0 != nil ==> ret0.User == arg(Validate, 0) && ret0.Email == ""
 
+// C12's proviso is "the provider answers within the refresh lock's duration": then the lock is free again before a waiting
+// request gives up, which needs the waiters' patience to exceed the lock's lifetime (and a polling period well inside it)
+//@ prop C12
+//@ lemma[a-waiting-request-outlasts-the-refresh-lock] sessionRefreshObtainTimeout > sessionRefreshLockDuration
+//@     && sessionRefreshRetryPeriod > 0 && sessionRefreshLockDuration + 2 * sessionRefreshRetryPeriod < sessionRefreshObtainTimeout
+
 // ------------------------------------------------------------------ C12 / C13 / C09: refresh and re-validation
 //@ func needsRefresh
 //@ prop C12
